@@ -105,6 +105,30 @@ def _bindings(path):
     return _CACHE[path]
 
 
+def _init_imports_submodule(path, mod, name):
+    if not path.endswith("__init__.py"):
+        return False
+    try:
+        import warnings
+        with warnings.catch_warnings():
+            warnings.simplefilter("ignore")
+            tree = ast.parse(open(path, encoding="utf-8").read())
+    except (SyntaxError, OSError):
+        return False
+    full = mod + "." + name
+    for n in ast.walk(tree):
+        if isinstance(n, ast.Import):
+            if any(a.name == full or a.name.startswith(full + ".") for a in n.names):
+                return True
+        elif isinstance(n, ast.ImportFrom):
+            m = n.module or ""
+            if n.level == 0 and (m == full or m.startswith(full + ".") or (m == mod and any(a.name == name for a in n.names))):
+                return True
+            if n.level == 1 and (m == name or m.startswith(name + ".") or (m == "" and any(a.name == name for a in n.names))):
+                return True
+    return False
+
+
 def member(sp, mod, name, depth=0):
     """is `name` importable from / an attribute of module `mod`?  returns (ok, reason, module path if it is a module)"""
     f = _module_file(sp, mod)
@@ -134,6 +158,10 @@ def member(sp, mod, name, depth=0):
             return True, "lazy module", sub
         return True, f"bound ({b[0]})", (sub if _module_file(sp, sub) is not None else None)
     if _module_file(sp, sub) is not None:
+        if _init_imports_submodule(f, mod, name):
+            # `import pkg.sub [as x]` / `from pkg.sub import y` / `from . import sub` executed by the package's __init__ binds the
+            # sub-module as an attribute of the package (the import system does that), whatever local name the statement uses
+            return True, "module", sub
         return "submodule", f"{sub} exists but {mod}/__init__ does not bind it", sub
     return False, f"module {mod} (installed at {os.path.relpath(f, sp)}) has no attribute '{name}' and no sub-module '{name}'", None
 
@@ -161,7 +189,7 @@ def resolve(dotted, explicit_imports=()):
             if any(e == full or e.startswith(full + ".") for e in explicit_imports):
                 mod = full
                 continue
-            return False, f"{why}; attribute access jax... .{name} fails unless the sub-module was imported explicitly"
+            return None, f"{why}; it may still be bound by an import executed elsewhere during `import jax` (undecided)"
         if nxt is None:
             return True, f"{'.'.join(parts[:i + 1])}: {why}"
         mod = nxt
